@@ -227,6 +227,35 @@ def worker(args, scratch):
                         res["violations"].append(["refusal-with-wrong-status", wit])
                 res["nontrivial"].append(common.sha(["exec", by, gi]))
             cnt["exec_histories"] = cnt.get("exec_histories", 0) + 1
+        # group membership is that of the caller's own groups: 'g' has no members, its gid is the uid of 'gidzero' (whose primary group
+        # is root) - a rule that grants group 'g' admits nobody; the same rule for group 'root' is the control (gidzero is admitted)
+        gz = idents[3]
+        for k, (grp, member) in enumerate([("g", False), ("root", True), ("g", False), ("vfstaff", False)]):
+            doc = {"defaultAccess": "deny", "mode": "enforce", "id": "c01-grp-%d" % k,
+                   "rules": {"privileges": [{"name": "p", "path": "/grp"}], "roles": [{"name": "ro", "privileges": ["p"]}],
+                             "identities": [{"name": "i", "groupName": grp}], "roleAssignments": [{"role": "ro", "identities": ["i"]}]}}
+            w.rules("imds", doc)
+            vid = "c01g-%d-%d" % (args["shard"], k)
+            conn = w.open("imds", gz)
+            conn.send(rawhttp.build_request("GET", "/grp/x", [("x-vf-id", vid)]))
+            st = conn.read_response().status
+            conn.close()
+            res["evaluations"] += 1
+            relayed = bool(w.upstream(vid))
+            wit = {"rule_grants_group": grp, "caller": {"user": gz.user, "uid": gz.uid, "gid": gz.gid}, "caller_is_member": member, "status": st, "relayed": relayed}
+            if member:
+                known_ids[vid] = "imds"
+                if not relayed:
+                    cnt["authorized_by_reference_but_refused"] = cnt.get("authorized_by_reference_but_refused", 0) + 1
+                    if st not in ERR:
+                        res["violations"].append(["not-relayed-and-no-error-status", wit])
+            else:
+                if relayed:
+                    res["violations"].append(["refused-request-reached-upstream", wit])
+                if st not in ERR:
+                    res["violations"].append(["refusal-with-wrong-status", wit])
+            res["nontrivial"].append(common.sha(["group", grp, k]))
+        cnt["group_membership_histories"] = cnt.get("group_membership_histories", 0) + 1
         w.rules("imds", None)
         # policy lookup failure (the key-keeper state task is gone): the lookup must report an error (-> 500), never 'no rules' (-> relayed)
         for ep in ("wireserver", "hostga", "imds"):
